@@ -666,6 +666,18 @@ pub fn check(scn: &E2eScn, log: &[Ev], sim: &Sim, horizon_reached: bool) -> Vec<
                 if r.sampled != root_sampled {
                     v.push(viol("C18", "trace-id-changed", &["chain", "sampling"], format!("call {tag} hop {h}: sampling decision changed")));
                 }
+            } else if h > 0 {
+                // With the OpenTelemetry layer the first hop's trace is the root span's own; from
+                // there on a nested call is made inside the handler's RPC span, whose remote
+                // parent is the request being handled: same trace, same sampling decision.
+                if let Some(up) = reqs[h - 1].get(&tag) {
+                    if r.trace != up.trace {
+                        v.push(viol("C18", "trace-id-changed", &["chain", "otel"], format!("call {tag} hop {h}: nested request transmitted with trace {:x}, the request being handled carried {:x}", r.trace, up.trace)));
+                    }
+                    if r.sampled != up.sampled {
+                        v.push(viol("C18", "trace-id-changed", &["chain", "otel", "sampling"], format!("call {tag} hop {h}: sampling decision changed")));
+                    }
+                }
             }
             if spans.contains(&r.span) || r.span == 0 {
                 v.push(viol("C18", "span-not-fresh", &["chain", "client"], format!("call {tag} hop {h}: request span {:x} is not fresh", r.span)));
@@ -679,7 +691,7 @@ pub fn check(scn: &E2eScn, log: &[Ev], sim: &Sim, horizon_reached: bool) -> Vec<
             }
             // --- C07: deadline at this hop
             let caller_deadline = if h == 0 { d_root } else { handlers.get(&(h as u8, tag)).map(|x| x.deadline).unwrap_or(r.deadline) };
-            if r.deadline != caller_deadline && !otel {
+            if r.deadline != caller_deadline && (!otel || h > 0) {
                 v.push(viol("C07", "nested-deadline", &[link_tag(h)], format!("call {tag} hop {h}: caller context deadline {caller_deadline}, request transmitted with {}", r.deadline)));
             }
             let Some(hd) = handlers.get(&((h + 1) as u8, tag)) else { continue };
